@@ -105,6 +105,7 @@ def run(ck: Check):
         one("symbol", b"".join(r.choice(alpha) for _ in range(n)), r.choice(SETS))
     cli(ck, r)
     collapse_keeps_sets(ck)
+    sets_changed_between_loads(ck)
     model = run_model(cases, shards=8)
     from coqlit import xcheck
     xcheck(ck, cases, model)
@@ -177,3 +178,38 @@ def collapse_keeps_sets(ck):
                              f"atoms {last[1]!r} are not cut at the supplied delimiters ({err})",
                              {"cut_before": before.hex(), "cut_after": after.hex(), "data": data.hex(), "verdicts": v[:12]})
     ex.diff()
+
+
+def sets_changed_between_loads(ck):
+    """set_cut_chars / handle_args on an object that has already split something must take effect"""
+    import lithium.testcases as tcs
+    from splitx import MEM
+    data = b"a<b>,c;d]e}f:g\n(h),i"
+    for first in SETS[:6]:
+        for second in SETS[:8]:
+            if second[0] is None or set(second[0]) & set(second[1]):
+                continue
+            t = tcs.TestcaseSymbol()
+            if first[0] is not None:
+                t.set_cut_chars(*first)
+            MEM.files["/mem/t.txt"] = data
+            tcs.open = MEM.open
+            try:
+                t.load("/mem/t.txt")
+                t.copy()
+                t.set_cut_chars(*second)
+                t.load("/mem/t.txt")
+                parts = list(t.parts)
+                t2 = t.copy()
+                t2.parts, t2.reducible = [], []
+                t2.split_parts(data)
+            finally:
+                del tcs.open
+            ck.count("sets-changed")
+            ck.nontrivial(("sets-changed", first, second))
+            for what, ps in (("second load", parts), ("split by a copy", t2.parts)):
+                err = symbol_ok(ps, data, second[0], second[1])
+                if err:
+                    ck.violation(f"symbol delimiters changed from {first} to {second} on a used object: {what} gives "
+                                 f"{ps!r} ({err})", {"first": str(first), "second": str(second), "data": data.hex()})
+                    break
